@@ -4,6 +4,8 @@
 -/
 import BumpProof.Lemmas.MemAlloc
 
+set_option linter.unusedSimpArgs false
+
 namespace Arena
 open Rs
 
